@@ -58,7 +58,7 @@ func runC07(e *Env) {
 			if cal == nil || cal.Pkg == nil || !strings.HasPrefix(cal.Pkg.Pkg.Path(), load.Module) {
 				continue
 			}
-			nn, known := flow.ErrNonNil(flow.DomConds(call.Block()), errv)
+			nn, known := flow.ErrKnownAt(errv, call)
 			r.Check(known && !nn, "E3.validate-first", "Policy.Assemble/"+calleeName(call)+"-after-Validate", p.Pos(call.Pos()), "runs only behind Validate() == nil", calleeName(call)+" can run although validation failed or has not run")
 		}
 		// inside Validate
@@ -276,7 +276,7 @@ func runC07(e *Env) {
 			r.Check(zero, "E3.nil-on-error", load.FuncName(f)+"/error-return", p.Pos(ret.Pos()), "an error comes with no program", "a return whose error may be non-nil also returns a (partial) program")
 		}
 	}
-	r.Floor("E3.nil-on-error(error returns)", nRet, 8)
+	r.Floor("E3.nil-on-error(error returns)", nRet, 3)
 	r.Count("functions in the compile call graph", len(cfns))
 
 	// ---------------- operations: four tables
@@ -424,6 +424,11 @@ func checkCompilePanics(e *Env, m *e1Model, fns []*ssa.Function) {
 				r.OK("E6.panic", key, posStr, strings.Join(why, "; "))
 				continue
 			}
+		}
+		if why, good := indexInCountedLoop(site.Instr); good {
+			nGuarded++
+			r.OK("E6.panic", key, posStr, why)
+			continue
 		}
 		r.Bad("E6.panic", key, posStr, "an index or slice expression on the compile path outside the patcher has no dominating guard that implies its bound: a policy value can make the compiler panic instead of returning an error")
 	}
